@@ -1,11 +1,15 @@
 //! C38: the ONNX protobuf decoder terminates and never panics.
 //!
-//! Request line: `pb <mode> <hex|->`, mode ∈ {buf, file, sniff}:
+//! Request line: `pb <mode> <hex|->`, mode ∈ {buf, file, sniff, load}:
 //!   buf   → `ModelProto::parse_buf(bytes)`
 //!   file  → `ModelProto::parse_file(File)` on a temp file holding the bytes
 //!   sniff → `is_onnx_model(ValueReader::from_buf(bytes))` (what `FileType::from_buffer` calls)
-//! Answer: `ok m=.. s=.. b=.. n=.. x=..` (digest of the decoded tree) | `err:<ErrorKind>` |
-//! `sniff=<0|1>` | `panic <msg>` | `hang` | `abort`.
+//!   load  → `rten::Model::load(bytes)` (file-type sniffing + decode + graph conversion); written as a
+//!           `#` comment request: not compared with the Lean model, oracle only.
+//! Answer: `ok m=.. s=.. b=.. n=.. x=.. st=..` (digest of the decoded tree, work counter) |
+//! `err:<ErrorKind> st=..` | `sniff=<0|1> st=..` | `load=<ok|err>` | `panic <msg>` | `hang` | `abort`.
+//! `st` is `rten_onnx::verif::DECODE_STEPS` (cfg(rten_verif) hook: +1 per primitive LimitReader read,
+//! +len per string/bytes buffer filled), reset before each case.
 //!
 //! Every case is executed in a *worker child process* (this same binary, `--worker`), driven over
 //! pipes with a watchdog (2 s of CPU time per case): a hang kills and respawns the worker (answer `hang`), a crash of the
@@ -13,6 +17,7 @@
 //!
 //! Property oracle, evaluated on the implementation's own outcome (independent of the Lean model):
 //!  * the outcome must be a message or an error (no panic / hang / abort);
+//!  * the work counter must satisfy `st ≤ 2·|input| + 1` (the linear bound proved for the model);
 //!  * if an independent top-level wire-format scan, or the structured generator itself, knows that a
 //!    length prefix exceeds the bytes remaining in its enclosing message, the outcome must be an error.
 use hcommon::{Args, Out, Rng};
@@ -255,20 +260,26 @@ fn kind_name(e: &ProtobufError) -> &'static str {
     }
 }
 
+fn steps() -> u64 {
+    rten_onnx::verif::DECODE_STEPS.load(std::sync::atomic::Ordering::Relaxed)
+}
+
 fn answer_model(r: Result<ModelProto, ProtobufError>) -> String {
+    let st = steps();
     match r {
         Ok(m) => {
             let mut d = Digest::default();
             d.model(&m);
             // Dropping a very deep tree recurses too; do it here, inside the guarded region.
             drop(m);
-            format!("ok m={} s={} b={} n={} x={}", d.m, d.s, d.b, d.n, d.x)
+            format!("ok m={} s={} b={} n={} x={} st={}", d.m, d.s, d.b, d.n, d.x, st)
         }
-        Err(e) => format!("err:{}", kind_name(&e)),
+        Err(e) => format!("err:{} st={}", kind_name(&e), st),
     }
 }
 
 fn run_one(mode: &str, bytes: &[u8], tmp: &str) -> String {
+    rten_onnx::verif::DECODE_STEPS.store(0, std::sync::atomic::Ordering::Relaxed);
     let r = hcommon::catch(|| match mode {
         "buf" => answer_model(ModelProto::parse_buf(bytes)),
         "file" => {
@@ -276,7 +287,21 @@ fn run_one(mode: &str, bytes: &[u8], tmp: &str) -> String {
             let f = std::fs::File::open(tmp).unwrap();
             answer_model(ModelProto::parse_file(f))
         }
-        "sniff" => format!("sniff={}", onnx::is_onnx_model(ValueReader::from_buf(bytes)) as u8),
+        "sniff" => {
+            let r = onnx::is_onnx_model(ValueReader::from_buf(bytes)) as u8;
+            format!("sniff={} st={}", r, steps())
+        }
+        "load" => match rten::Model::load(bytes.to_vec()) {
+            Ok(m) => {
+                drop(m);
+                "load=ok".to_string()
+            }
+            Err(e) => {
+                // error text only feeds the evidence histogram (load lines are not compared with the model)
+                let t: String = e.to_string().chars().map(|c| if c.is_ascii_alphabetic() { c } else { '_' }).take(48).collect();
+                format!("load=err {t}")
+            }
+        },
         _ => "bad-mode".to_string(),
     });
     match r {
@@ -847,6 +872,244 @@ fn deep_type(depth: usize) -> Vec<u8> {
     model
 }
 
+// ---------------------------------------------------------------- adversarial but decodable ONNX models
+
+fn ld(num: u64, payload: &[u8]) -> Vec<u8> {
+    let mut b = tag(num, 2);
+    b.extend(varint(payload.len() as u64));
+    b.extend(payload);
+    b
+}
+
+fn vi(num: u64, v: u64) -> Vec<u8> {
+    let mut b = tag(num, 0);
+    b.extend(varint(v));
+    b
+}
+
+fn odd_i64(rng: &mut Rng) -> i64 {
+    match rng.below(12) {
+        0 => 0,
+        1 => -1,
+        2 => 1,
+        3 => 2,
+        4 => 3,
+        5 => i64::MAX,
+        6 => i64::MIN,
+        7 => 1 << 31,
+        8 => 1 << 40,
+        9 => -(1 << 33),
+        _ => rng.below(6) as i64,
+    }
+}
+
+fn small_dims(rng: &mut Rng) -> Vec<i64> {
+    let r = rng.usize_below(4);
+    (0..r).map(|_| if rng.chance(1, 8) { odd_i64(rng) } else { 1 + rng.below(3) as i64 }).collect()
+}
+
+fn gen_tensor(rng: &mut Rng, name: &str) -> Vec<u8> {
+    let mut t = vec![];
+    if rng.chance(2, 3) {
+        // clean tensor, so that most models get past the initializers
+        let dims: Vec<u64> = (0..rng.usize_below(3)).map(|_| 1 + rng.below(3)).collect();
+        for &d in &dims {
+            t.extend(vi(1, d));
+        }
+        let (dt, elem) = *rng.pick(&[(1u64, 4usize), (7, 8), (6, 4)]);
+        t.extend(vi(2, dt));
+        let n: u64 = dims.iter().product();
+        let raw: Vec<u8> = (0..n as usize * elem).map(|_| rng.below(4) as u8).collect();
+        t.extend(ld(9, &raw));
+        t.extend(ld(8, name.as_bytes()));
+        return t;
+    }
+    let dims = small_dims(rng);
+    for &d in &dims {
+        t.extend(vi(1, d as u64));
+    }
+    let dt = *rng.pick(&[1u64, 1, 1, 7, 7, 6, 2, 3, 9, 10, 11, 0, 8, 99, u64::MAX]);
+    t.extend(vi(2, dt));
+    let n: i128 = dims.iter().map(|&d| d as i128).product();
+    let elem = match dt {
+        1 | 6 => 4,
+        7 | 11 => 8,
+        2 | 3 | 9 => 1,
+        10 => 2,
+        _ => 4,
+    };
+    let exact = if (0..=64).contains(&n) { (n as usize) * elem } else { rng.usize_below(16) };
+    let len = match rng.below(8) {
+        0 => exact + 1,
+        1 => exact.saturating_sub(1),
+        2 => 0,
+        _ => exact,
+    };
+    match rng.below(5) {
+        0 => {
+            // float_data / int64_data instead of raw_data
+            let mut p = vec![];
+            for _ in 0..len / elem.max(1) {
+                p.extend((rng.next_u64() as u32).to_le_bytes());
+            }
+            t.extend(ld(if rng.chance(1, 2) { 4 } else { 5 }, &p));
+        }
+        1 => {
+            let mut p = vec![];
+            for _ in 0..len / 8 {
+                p.extend(varint(odd_i64(rng) as u64));
+            }
+            t.extend(ld(7, &p));
+        }
+        _ => {
+            let raw: Vec<u8> = (0..len).map(|_| rng.next_u64() as u8).collect();
+            t.extend(ld(9, &raw));
+        }
+    }
+    t.extend(ld(8, name.as_bytes()));
+    if rng.chance(1, 12) {
+        t.extend(vi(14, rng.below(3))); // data_location (1 = external)
+        let mut e = ld(1, b"location");
+        e.extend(ld(2, b"weights.bin"));
+        t.extend(ld(13, &e));
+    }
+    t
+}
+
+fn gen_value_info(rng: &mut Rng, name: &str) -> Vec<u8> {
+    let mut shape = vec![];
+    for _ in 0..rng.usize_below(4) {
+        let dim = if rng.chance(1, 3) { ld(2, b"n") } else { vi(1, if rng.chance(1, 6) { odd_i64(rng) as u64 } else { 1 + rng.below(4) }) };
+        shape.extend(ld(1, &dim));
+    }
+    let mut tt = vi(1, *rng.pick(&[1u64, 1, 7, 6, 0, 99]));
+    if rng.chance(5, 6) {
+        tt.extend(ld(2, &shape));
+    }
+    let ty = if rng.chance(1, 10) { ld(4, &ld(1, &ld(1, &tt))) } else { ld(1, &tt) };
+    let mut v = ld(1, name.as_bytes());
+    if rng.chance(7, 8) {
+        v.extend(ld(2, &ty));
+    }
+    v
+}
+
+const OPS: &[&str] = &[
+    "Add", "Mul", "Relu", "MatMul", "Reshape", "Concat", "Gather", "Conv", "Constant", "Transpose", "Slice", "Cast",
+    "If", "Shape", "Unsqueeze", "Softmax", "Gemm", "ReduceMean", "MaxPool", "Split", "Loop", "ConstantOfShape",
+    "Identity", "Squeeze", "Expand", "Where", "NoSuchOp",
+];
+const ATTRS: &[&str] = &[
+    "axis", "axes", "perm", "to", "value", "then_branch", "else_branch", "body", "kernel_shape", "strides", "pads",
+    "keepdims", "alpha", "transB", "split", "value_int", "value_ints", "value_float", "dilations", "group", "mode",
+];
+
+fn gen_attr(rng: &mut Rng, depth: u32) -> Vec<u8> {
+    let name = *rng.pick(ATTRS);
+    let mut a = ld(1, name.as_bytes());
+    let kind = rng.below(8);
+    match kind {
+        0 => {
+            a.extend(vi(3, odd_i64(rng) as u64));
+            a.extend(vi(20, 2));
+        }
+        1 => {
+            for _ in 0..rng.usize_below(5) {
+                a.extend(vi(8, odd_i64(rng) as u64));
+            }
+            a.extend(vi(20, 7));
+        }
+        2 => {
+            let mut f = tag(2, 5);
+            f.extend((rng.next_u64() as u32).to_le_bytes());
+            a.extend(f);
+            a.extend(vi(20, 1));
+        }
+        3 => {
+            a.extend(ld(5, &gen_tensor(rng, "t")));
+            a.extend(vi(20, 4));
+        }
+        4 if depth < 3 => {
+            a.extend(ld(6, &gen_graph(rng, depth + 1)));
+            a.extend(vi(20, 5));
+        }
+        5 => {
+            a.extend(ld(4, b"constant"));
+            a.extend(vi(20, 3));
+        }
+        6 => {
+            // value present but declared type disagrees / missing
+            a.extend(vi(3, odd_i64(rng) as u64));
+            a.extend(vi(20, rng.below(12)));
+        }
+        _ => {
+            a.extend(vi(20, rng.below(8)));
+        }
+    }
+    a
+}
+
+fn gen_graph(rng: &mut Rng, depth: u32) -> Vec<u8> {
+    let mut g = vec![];
+    let mut names: Vec<String> = vec![];
+    if rng.chance(5, 6) {
+        names.push("x".into());
+        g.extend(ld(11, &gen_value_info(rng, "x")));
+    }
+    for i in 0..rng.usize_below(4) {
+        let n = format!("w{i}");
+        g.extend(ld(5, &gen_tensor(rng, &n)));
+        if rng.chance(1, 5) {
+            g.extend(ld(11, &gen_value_info(rng, &n)));
+        }
+        names.push(n);
+    }
+    let nn = rng.usize_below(5);
+    for i in 0..nn {
+        let mut node = vec![];
+        for _ in 0..rng.usize_below(4) {
+            let nm: String = match rng.below(8) {
+                0 => "".into(),
+                1 => "undefined".into(),
+                _ if !names.is_empty() => rng.pick(&names).clone(),
+                _ => "x".into(),
+            };
+            node.extend(ld(1, nm.as_bytes()));
+        }
+        let nout = if rng.chance(1, 8) { rng.usize_below(3) } else { 1 };
+        for k in 0..nout {
+            let nm = if rng.chance(1, 12) && !names.is_empty() { rng.pick(&names).clone() } else { format!("y{depth}_{i}_{k}") };
+            node.extend(ld(2, nm.as_bytes()));
+            names.push(nm);
+        }
+        node.extend(ld(4, rng.pick(OPS).as_bytes()));
+        for _ in 0..rng.usize_below(4) {
+            node.extend(ld(5, &gen_attr(rng, depth)));
+        }
+        if rng.chance(1, 10) {
+            node.extend(ld(7, b"com.microsoft"));
+        }
+        g.extend(ld(1, &node));
+    }
+    for _ in 0..rng.usize_below(3) {
+        let nm: String = if !names.is_empty() && rng.chance(7, 8) { rng.pick(&names).clone() } else { "nowhere".into() };
+        g.extend(ld(12, &gen_value_info(rng, &nm)));
+    }
+    g
+}
+
+/// A well-formed ModelProto (decodes OK) whose *content* is hostile to the graph conversion:
+/// odd dims / data types / data lengths, dangling or duplicate value names, wrong attribute types,
+/// nested subgraphs, unknown operators.
+fn gen_loadable(rng: &mut Rng) -> Vec<u8> {
+    let mut m = vi(1, *rng.pick(&[8u64, 8, 9, 3, 0, u64::MAX]));
+    let mut ops = ld(1, if rng.chance(1, 8) { b"ai.onnx.ml" } else { b"" });
+    ops.extend(vi(2, *rng.pick(&[18u64, 18, 21, 11, 1, 0, 1 << 40, u64::MAX])));
+    m.extend(ld(8, &ops));
+    m.extend(ld(7, &gen_graph(rng, 0)));
+    m
+}
+
 // ---------------------------------------------------------------- driving
 
 struct Ctx {
@@ -855,6 +1118,7 @@ struct Ctx {
     slow: f64,
     n_ok: u64,
     n_err: u64,
+    max_ratio: f64,
 }
 
 impl Ctx {
@@ -883,6 +1147,8 @@ impl Ctx {
                 "err"
             } else if ans.starts_with("sniff=") {
                 "sniff"
+            } else if ans.starts_with("load=") {
+                "load"
             } else if ans.starts_with("panic") {
                 "panic"
             } else if ans == "hang" {
@@ -891,6 +1157,7 @@ impl Ctx {
                 "abort"
             };
             match class_out {
+                "panic" if *mode == "load" => fail = Some(format!("Model::load panicked: {ans}")),
                 "panic" => fail = Some(format!("decoder panicked: {ans}")),
                 "hang" => fail = Some("decoder did not return within the watchdog limit (hang)".into()),
                 "abort" => fail = Some("decoder killed the process (abort / stack overflow / allocation failure)".into()),
@@ -902,15 +1169,34 @@ impl Ctx {
                     }
                 }
                 "sniff" => {
-                    if ans == "sniff=1" && scan_overlong {
+                    if ans.starts_with("sniff=1") && scan_overlong {
                         fail = Some("is_onnx_model accepted input whose top-level length prefix exceeds the input".into());
+                    }
+                }
+                "load" => {
+                    if ans == "load=ok" && (expect_err || scan_overlong) {
+                        fail = Some("Model::load accepted input with a length prefix larger than its enclosing message".into());
                     }
                 }
                 _ => {}
             }
+            // linear-work oracle on the real decoder's own counter
+            if fail.is_none() {
+                if let Some(st) = ans.rsplit_once(" st=").and_then(|(_, n)| n.parse::<u64>().ok()) {
+                    if st > 2 * bytes.len() as u64 + 1 {
+                        fail = Some(format!("decoder work {st} exceeds 2*|input|+1 = {}", 2 * bytes.len() + 1));
+                    }
+                    self.max_ratio = self.max_ratio.max(st as f64 / (bytes.len().max(1)) as f64);
+                }
+            }
+            let compare = compare && *mode != "load";
             self.out.bucket(&format!("class_{class}"));
             self.out.bucket(&format!("mode_{mode}"));
             self.out.bucket(&format!("outcome_{class_out}"));
+            if class_out == "load" {
+                let key: String = ans.chars().take(34).collect();
+                self.out.bucket(&format!("load_result_{key}"));
+            }
             let lb = match bytes.len() {
                 0..=2 => "len_0-2",
                 3..=16 => "len_3-16",
@@ -948,6 +1234,7 @@ fn run(args: &Args) {
         slow: 0.0,
         n_ok: 0,
         n_err: 0,
+        max_ratio: 0.0,
     };
     let mut rng = Rng::new(args.seed);
     let th = args.thorough;
@@ -1009,7 +1296,7 @@ fn run(args: &Args) {
     // (c) the real model file shipped with the crate and mutations of it
     let repo = std::env::var("VERIF_REPO").unwrap_or_else(|_| "/repo".into());
     if let Ok(mn) = std::fs::read(format!("{repo}/rten-onnx/test-data/mnist.onnx")) {
-        cx.case("mnist", &mn, ALL, false, true, true);
+        cx.case("mnist", &mn, &["buf", "file", "sniff", "load"], false, true, true);
         let k = if th { 400 } else { 60 };
         for _ in 0..k {
             let mut m = mn.clone();
@@ -1030,7 +1317,7 @@ fn run(args: &Args) {
                     m.splice(p..p, ins);
                 }
             }
-            cx.case("mnist_mut", &m, &["buf", "file"], false, true, true);
+            cx.case("mnist_mut", &m, &["buf", "file", "load"], false, true, true);
         }
     } else {
         cx.out.note("mnist.onnx not found");
@@ -1104,6 +1391,19 @@ fn run(args: &Args) {
         cx.case("random", &b, modes_for(&mut rng), false, false, true);
     }
 
+    // (g) adversarial-but-decodable models through rten::Model::load (post-decode conversion)
+    let n_load = if th { 20_000 } else { 2_500 };
+    for _ in 0..n_load {
+        let m = gen_loadable(&mut rng);
+        cx.case("loadable", &m, &["buf", "load"], false, true, true);
+        if rng.chance(1, 4) {
+            let mut m2 = m.clone();
+            let p = rng.usize_below(m2.len());
+            m2[p] = rng.next_u64() as u8;
+            cx.case("loadable_mut", &m2, &["load"], false, true, true);
+        }
+    }
+
     // (f) nesting depth (MAX_MESSAGE_DEPTH = 100 after the fix; a stack overflow before it)
     let depths: &[usize] = if th {
         &[1, 2, 10, 30, 31, 32, 33, 34, 35, 100, 400, 1000, 3_000, 20_000, 100_000]
@@ -1125,8 +1425,9 @@ fn run(args: &Args) {
     cx.runner.kill();
     let _ = std::fs::remove_file(&cx.runner.tmp);
     let note = format!(
-        "outcomes: ok={} err={} hangs={} aborts={}; slowest case {:.3}s wall (watchdog: 2s of CPU time)",
-        cx.n_ok, cx.n_err, cx.runner.hangs, cx.runner.aborts, cx.slow
+        "outcomes: ok={} err={} hangs={} aborts={}; slowest case {:.3}s wall (watchdog: 2s of CPU time); \
+         largest observed decoder work / input length = {:.3} (proved bound: 2 + 1/len)",
+        cx.n_ok, cx.n_err, cx.runner.hangs, cx.runner.aborts, cx.slow, cx.max_ratio
     );
     cx.out.note(&note);
     cx.out.finish(
